@@ -19,6 +19,26 @@ def is_tracing(node):
 
 # --------------------------------------------------------------------- facts
 
+_RULE_WORDS = None
+
+
+def rule_words():
+    """identifiers that occur in the rule sources (function names a rule anchors on)"""
+    global _RULE_WORDS
+    if _RULE_WORDS is None:
+        here = os.path.dirname(os.path.abspath(__file__))
+        w = set()
+        for root, _d, files in os.walk(here):
+            for f in files:
+                if f.endswith(".py"):
+                    try:
+                        w |= set(re.findall(r"[A-Za-z_][A-Za-z0-9_]{2,}", open(os.path.join(root, f)).read()))
+                    except OSError:
+                        pass
+        _RULE_WORDS = w
+    return _RULE_WORDS
+
+
 class Body:
     def __init__(self, d, crate):
         self.d = d
@@ -27,6 +47,7 @@ class Body:
         self.file = d.get("file")
         self.ln = d.get("ln")
         self._cfg = None
+        self.facts = None
 
     @property
     def thir(self):
@@ -66,7 +87,8 @@ class Facts:
             self._crates[name] = d
             idx = {}
             for b in d["bodies"]:
-                idx.setdefault(b["key"], Body(b, name))
+                bd = idx.setdefault(b["key"], Body(b, name))
+                bd.facts = self
             self._bodies[name] = idx
             d["_adts"] = {a["key"]: a for a in d["adts"]}
         return self._crates[name]
@@ -106,32 +128,82 @@ class Facts:
             out.append(b)
         return out
 
+    WORKSPACE = ("chalk_ir", "chalk_solve", "chalk_engine", "chalk_recursive", "chalk_integration")
+
+    def transparent_helpers(self):
+        """{callee key: caller key} - functions the rules "see through": free functions / inherent methods of the workspace with exactly
+        ONE call site in the whole workspace and whose name no rule mentions (an anchor of a rule is never dissolved into its caller).
+        Extracting a few lines of a function into such a helper therefore does not change what a rule about that function sees."""
+        if hasattr(self, "_transparent"):
+            return self._transparent
+        words = rule_words()
+        sites = {}
+        for cr in self.WORKSPACE:
+            if not self.has_crate(cr):
+                continue
+            for k, b in self.bodies(cr).items():
+                for blk in (b.d.get("mir") or {}).get("blocks", []):
+                    t = blk["t"]
+                    if t.get("k") != "call":
+                        continue
+                    # resolved callee, or a plain function path; an unresolved trait-method call may run any implementation
+                    name = t.get("res") or (t.get("fn") if not t.get("trait") else None)
+                    if name and self._crate_of_key(name) in self.WORKSPACE:
+                        sites.setdefault(name, []).append(k)
+        out = {}
+        for callee, callers in sites.items():
+            if len(callers) != 1 or " as " in callee or "{" in callee:
+                continue
+            hb = self.body(callee)
+            if hb is None or hb.d.get("mir") is None or hb.thir is None:
+                continue
+            caller = callers[0].split("::{")[0]
+            if caller == callee or self._crate_of_key(caller) != self._crate_of_key(callee):
+                continue
+            if callee.split("::")[-1] in words or is_tracing(hb.d):
+                continue
+            out[callee] = caller
+        self._transparent = out
+        return out
+
     def closures_of(self, body):
         """Closure bodies lexically nested in `body` (any depth)."""
         pre = body.key + "::{"
         return [b for k, b in self.bodies(body.crate).items() if k.startswith(pre)]
 
-    def inline(self, node, depth=0):
-        """Copy of a THIR tree in which every closure expression carries the closure's own THIR under 'body'."""
+    def inline(self, node, depth=0, root=None, in_helper=False):
+        """Copy of a THIR tree in which every closure expression carries the closure's own THIR under 'body', and every call to a
+        transparent helper (transparent_helpers) carries the helper's THIR under 'inl' (its `return`s renamed `ireturn`: they leave
+        the helper, not the function under analysis)."""
         if isinstance(node, list):
-            return [self.inline(x, depth) for x in node]
+            return [self.inline(x, depth, root, in_helper) for x in node]
         if not isinstance(node, dict):
             return node
-        out = {k: self.inline(v, depth) for k, v in node.items()}
+        out = {k: self.inline(v, depth, root, in_helper) for k, v in node.items() if not k.startswith("_")}
+        if in_helper and out.get("k") == "return":
+            out["k"] = "ireturn"
         if node.get("k") == "closure" and node.get("def") and depth < 6:
             b = self.body(node["def"])
             if b is not None and b.thir is not None:
-                out["body"] = self.inline(b.thir, depth + 1)
+                out["body"] = self.inline(b.thir, depth + 1, root, in_helper)
                 out["params"] = b.d.get("thir_params")
+        if node.get("k") == "call" and root is not None and depth < 6 and os.environ.get("CHALK_VERIF_NO_INLINE") != "1":
+            name = node.get("res") or (node.get("fn") if not node.get("trait") else None)
+            helpers = self.transparent_helpers()
+            if name in helpers and helpers[name] == root:
+                hb = self.body(name)
+                if hb is not None and hb.thir is not None:
+                    out["inl"] = {"k": "inlined", "fn": name, "params": hb.d.get("thir_params"),
+                                  "body": self.inline(hb.thir, depth + 1, name, True)}
         return out
 
     def thir(self, key):
-        """Closure-inlined THIR of a body (None if absent)."""
+        """Closure- and helper-inlined THIR of a body (None if absent)."""
         b = self.body(key)
         if b is None or b.thir is None:
             return None
         if not hasattr(b, "_inl"):
-            b._inl = self.inline(b.thir)
+            b._inl = self.inline(b.thir, 0, key.split("::{")[0])
         return b._inl
 
     def adt(self, key):
@@ -427,7 +499,16 @@ class Cfg:
 
     def __init__(self, body):
         self.body = body
-        self.blocks = body.mir["blocks"]
+        self.blocks = list(body.mir["blocks"])
+        self.locals = list(body.mir.get("locals") or [])
+        self.inlined = []
+        if getattr(body, "facts", None) is not None and os.environ.get("CHALK_VERIF_NO_INLINE") != "1":
+            try:
+                self._splice_helpers(body.facts)
+            except Exception:      # never let the convenience break a rule: fall back to the plain CFG
+                self.blocks = list(body.mir["blocks"])
+                self.locals = list(body.mir.get("locals") or [])
+                self.inlined = []
         self.n = len(self.blocks)
         self.edges = []
         for i, b in enumerate(self.blocks):
@@ -451,6 +532,91 @@ class Cfg:
             self.succ[e[0]].append(e)
             self.pred[e[1]].append(e)
         self._defs = None
+
+    # -- transparent helpers -------------------------------------------------
+    def _splice_helpers(self, facts, max_depth=2):
+        """Splice the MIR of every transparent helper (Facts.transparent_helpers) behind its single call site: the call block stays
+        (the call is still visible), but control continues through a copy of the helper's blocks (locals and block numbers shifted,
+        arguments assigned to its parameters, its return place assigned to the call's destination) before reaching the call's target."""
+        import copy
+        helpers = facts.transparent_helpers()
+        me = self.body.key.split("::{")[0]
+        depth_of = {}
+        i = 0
+        while i < len(self.blocks):
+            blk = self.blocks[i]
+            t = blk["t"]
+            d = depth_of.get(i, 0)
+            callee = None
+            if t.get("k") == "call" and d < max_depth and not blk.get("_spliced"):
+                name = t.get("res") or (t.get("fn") if not t.get("trait") else None)
+                if name in helpers and helpers[name] == me and name != me:
+                    callee = name
+            if callee is None:
+                i += 1
+                continue
+            hb = facts.body(callee)
+            hm = hb.d["mir"]
+            off = len(self.locals)
+            self.locals.extend(hm.get("locals") or [])
+            dummy = len(self.locals)
+            self.locals.append("()")
+            shim = len(self.blocks)
+            base = shim + 1
+            target, unwind = t.get("t"), t.get("u")
+
+            def shift(x):
+                if isinstance(x, dict):
+                    y = {}
+                    for k_, v_ in x.items():
+                        if k_ == "l" and isinstance(v_, int):
+                            y[k_] = v_ + off
+                        else:
+                            y[k_] = shift(v_)
+                    return y
+                if isinstance(x, list):
+                    return [shift(v_) for v_ in x]
+                return x
+            new_blocks = []
+            for hb_blk in hm["blocks"]:
+                nb = {"s": shift(hb_blk["s"]), "t": shift(hb_blk["t"]), "_inl": callee}
+                tt = nb["t"]
+                k_ = tt.get("k")
+                if k_ == "goto":
+                    tt["t"] += base
+                elif k_ == "switch":
+                    tt["v"] = [[v_, bb + base] for v_, bb in tt["v"]]
+                    tt["else"] += base
+                elif k_ in ("call", "drop", "assert"):
+                    if tt.get("t") is not None:
+                        tt["t"] += base
+                    if isinstance(tt.get("u"), int):
+                        tt["u"] += base
+                elif k_ == "return":
+                    if target is not None:
+                        nb["s"] = nb["s"] + [{"k": "assign", "ln": t.get("ln"), "p": t.get("d"), "r": {"k": "use", "o": {"m": {"l": off}}}}]
+                        nb["t"] = {"k": "goto", "t": target}
+                    else:
+                        nb["t"] = {"k": "unreachable"}
+                elif k_ == "resume" and isinstance(unwind, int):
+                    nb["t"] = {"k": "goto", "t": unwind}
+                new_blocks.append(nb)
+            args = t.get("a") or []
+            shim_blk = {"s": [{"k": "assign", "ln": t.get("ln"), "p": {"l": off + 1 + j}, "r": {"k": "use", "o": a}} for j, a in enumerate(args)],
+                        "t": {"k": "goto", "t": base}, "_inl": callee}
+            call_copy = dict(blk)
+            tc = dict(t)
+            tc["t"] = shim
+            tc["d"] = {"l": dummy}
+            call_copy["t"] = tc
+            call_copy["_spliced"] = callee
+            self.blocks[i] = call_copy
+            self.blocks.append(shim_blk)
+            self.blocks.extend(new_blocks)
+            for j in range(shim, len(self.blocks)):
+                depth_of[j] = d + 1
+            self.inlined.append(callee)
+            i += 1
 
     # -- reachability ------------------------------------------------------
     def reachable(self, start=0, removed=(), unwind=False, stop=()):
@@ -507,10 +673,13 @@ class Cfg:
                 out.append(i)
         return out
 
-    def agg_sites(self, adt=None, variant=None):
-        """(block, stmt_index, stmt) for aggregate constructions of adt::variant."""
+    def agg_sites(self, adt=None, variant=None, own_only=True):
+        """(block, stmt_index, stmt) for aggregate constructions of adt::variant - in the function's own blocks (a spliced helper's
+        constructions are its own business) unless own_only is False."""
         out = []
         for i, b in enumerate(self.blocks):
+            if own_only and b.get("_inl"):
+                continue
             for j, st in enumerate(b["s"]):
                 if st["k"] == "assign" and st["r"]["k"] == "agg":
                     r = st["r"]
@@ -777,11 +946,20 @@ class CallGraph:
                     dq.append(c)
         return seen
 
-    def callers_of(self, pred):
-        """(caller key, block, terminator) for call sites whose callee satisfies pred."""
+    def callers_of(self, pred, through_helpers=True):
+        """(caller key, block, terminator) for call sites whose callee satisfies pred.  A call made by a transparent helper
+        (Facts.transparent_helpers: a single-call-site function no rule names) is attributed to the function it was extracted from."""
         out = []
+        helpers = self.facts.transparent_helpers() if (through_helpers and getattr(self, "facts", None) is not None) else {}
         for k, sites in self.sites.items():
             for i, t in sites:
                 if any(pred(c) for c in callee_names(t)):
-                    out.append((k, i, t))
+                    k2 = k
+                    for _ in range(3):
+                        base = k2.split("::{")[0]
+                        if base in helpers:
+                            k2 = helpers[base]
+                        else:
+                            break
+                    out.append((k2 if k2 in self.bodies else k, i, t))
         return out
